@@ -212,7 +212,7 @@ def check_track_sections(ctx: Ctx, r: Rule, which: str, strict: Any = True) -> d
             lines_formal = ("param", p_)
     if lines_formal is None:
         lines_formal = ("param", ps[1])
-    if strict is True and strip(dict(pcall.kwargs).get(parse_params[1])) != lines_formal:
+    if (strict is True or strict == "bpm") and strip(dict(pcall.kwargs).get(parse_params[1])) != lines_formal:
         fail(r, ctx, pf, pcall.node, f"the dispatcher must receive the section's own lines unchanged (every line, in order, "
                                      f"duplicates included); it receives {show(dict(pcall.kwargs).get(parse_params[1]))[:120]}")
     spf = ctx.summary(pf)
